@@ -4,8 +4,8 @@ from props.common import run_property
 import props.msg  # noqa: registers the judges
 
 PROP = 'C01'
-TARGETS_Q = ['#x', 'bob', 'alice', 'dave', '#nochan', '@#x', '+#x', '~&@%+#x', '&y', '&&y', '@+#x', '#x,bob', '#x,#x', 'bob,@#x', '#x,&y', '@#x,+#x']
-TARGETS_T = TARGETS_Q + ['%#x', '~#x', '&#x', '@&y', '~&&y', 'bob,carol,alice', '#x,@#x,bob', 'dave,#nochan,#x', '&y,&&y']
+TARGETS_Q = ['#x', 'bob', 'alice', 'dave', '#nochan', '@#x', '+#x', '~&@%+#x', '&y', '&&y', '@+#x', '#x,bob', '#x,#x', 'bob,@#x', '#x,&y', '@#x,+#x', '#x,bob,#x', 'bob,#x,bob']
+TARGETS_T = TARGETS_Q + ['%#x', '~#x', '&#x', '@&y', '~&&y', 'bob,carol,alice', '#x,@#x,bob', 'dave,#nochan,#x', '&y,&&y', '@#x,bob,@#x', 'bob,carol,bob,carol', '#x,&y,#x']
 
 def make_cases(tier, profile, judges=('no_panic', 'inv', 'msg_delivery'), verbs=('PRIVMSG', 'NOTICE')):
     cases = []
